@@ -3,7 +3,7 @@ from dev_try import load
 import iters
 fn, name, N = sys.argv[1], sys.argv[2], int(sys.argv[3])
 prog = load()
-job = {'kind': 'iter', 'name': name, 'N': N, 'cfg': 'dev', 'props': ['C02', 'C05', 'C09', 'C10']}
+job = {'kind': 'iter', 'name': name, 'N': N, 'cfg': 'dev', 'props': ['C02', 'C05', 'C09', 'C10'], 'embedded': bool(os.environ.get('EMBED'))}
 r = getattr(iters, fn)(prog, job)
 v = r.pop('violations'); r.pop('samples'); r.pop('smt2')
 print(json.dumps(r, default=str))
